@@ -67,6 +67,18 @@ CHECKS = {
         'never lead to pay. Stored state free / pending / succeeded. All schedules incl. every select! start index.',
    design='4/C07', technique='symbolic execution of the real async stack from MIR under an explicit-state scheduler with partial-order reduction; SMT decides data; native replay over a fake node',
    note=TRUST + '; bounds: 2 HTLCs (quick) / 3 (thorough), 1 part.'),
+ 'C11': dict(category='model_checking',
+   text='Full stack from MIR with a symbolic MPP timeout (1..2^32-1 s) and partial HTLCs that never reach the required total (assumed on the symbolic inputs): the only response is temporary_trampoline_failure, '
+        'decided only after the timer fired; the timer duration term equals the configured timeout and it is armed in the lifecycle step that received the store answer; no pay is ever issued. '
+        'Restart path (Pending record, dead earlier attempt, symbolic attempt time older or newer than now): duration = timeout - min(timeout, now - attempt time), never more than one period; zero => immediate failure.',
+   design='4/C11', technique='symbolic execution of the real async stack from MIR under an explicit-state scheduler with partial-order reduction; SMT decides data; native replay over a fake node',
+   note=TRUST + '; tokio timer accuracy is a contract; bounds: 2 partial HTLCs (quick) / 3.'),
+ 'C13': dict(category='model_checking',
+   text='The real handle_htlc / check_htlc / extract_trampoline_info / default_response / TLV code runs on every class of non-trampoline request (forward with valid metadata, no metadata, missing forward_msat, '
+        'bad signature, foreign hash, disagreeing or 9-byte amount field) with symbolic numeric fields, and on every metadata byte string of length 0..6 (quick) / 0..9: the response is Continue on the first poll, '
+        'with no RPC call, spawn, table insertion or timer; a rewritten payload equals the other records byte for byte and in order (record 16 placed in the middle of the payload).',
+   design='4/C13', technique='symbolic execution of the real async stack from MIR under an explicit-state scheduler with partial-order reduction; SMT decides data; native replay over a fake node',
+   note=TRUST + '; invoice oracle: byte strings other than the scenario invoices do not parse; other payload records concrete.'),
 }
 
 NOT_YET = 'harness not built yet in this session (see DESIGN.md build order); will be claimed once its check exists'
